@@ -333,7 +333,9 @@ pub fn run_prepared(seed: u64, i: u64, case: Case, o: &Opts) -> CaseOut {
             ("jit", Config { use_jit: true, ..Default::default() }),
             ("4state", Config { use_4state: true, ..Default::default() }),
         ] {
-            if let Ok(t) = vgen::sim::run(&a.ir, &d, &cfg, &stim) {
+            // an engine that panics (a JIT lowering crash is C02's finding) simply does not vote
+            let alt = std::panic::catch_unwind(std::panic::AssertUnwindSafe(|| vgen::sim::run(&a.ir, &d, &cfg, &stim)));
+            if let Ok(Ok(t)) = alt {
                 'cmp: for c in 0..=upto.min(t.steps.len().saturating_sub(1)) {
                     for (x, y) in t.steps[c].iter().zip(reference.steps[c].iter()) {
                         for w in 0..x.payload.len() {
